@@ -11,6 +11,8 @@ package db
 //   hdr_valid  parseHeader has accepted the header bytes read in this call of resolveDirty
 //@ ghost cc_now (_ BitVec 32)
 //@ ghost hdr_valid bool
+//@ ghost hdr_ps bv64
+//@ ghost hdr_cookie (_ BitVec 32)
 // Lock model (DESIGN 3.4): what this handle holds on the database file, and the lock state of another
 // SQLite connection (0 UNLOCKED, 1 SHARED, 2 RESERVED, 3 PENDING, 4 EXCLUSIVE); other_shared: another
 // handle of this process holds SHARED on the same file.
@@ -136,7 +138,7 @@ package db
 //@ func (*db.Database).resolveDirty
 //@   props C08 C15 C09
 //@   opt no-type-invariant=db.Database
-//@   modifies * -M:S_db_KeyCol hdr_valid
+//@   modifies * -M:S_db_KeyCol hdr_valid hdr_ps hdr_cookie
 //@   requires db != nil && db.l != nil && db.btreeCache != nil && db.btreeCache.elem != nil
 //@   requires db.header != nil ==> CACHE_OK(db) && legal_ps(db.header.PageSize)
 //@   requires db.header == nil ==> db.dirty && (forall q int :: !has(db.btreeCache.elem, q))
@@ -146,14 +148,13 @@ package db
 //@   ensures [handles] db.l == old(db.l)
 //@   ensures [current] err == nil && old(db.dirty) ==> db.header.ChangeCounter == cc_now && legal_ps(db.header.PageSize)
 //@   ensures [untouched] err == nil && !old(db.dirty) ==> db.header == old(db.header)
-//@   ensures [cache0] err == nil ==> db.btreeCache != nil && db.btreeCache.elem != nil
 //@   ensures [cache] err == nil ==> db.btreeCache != nil && db.btreeCache.elem != nil && CACHE_OK(db)
-//@   ensures [schema0] err == nil && old(db.dirty) && old(db.header) != nil ==> old(db.header) != db.header
+//@   ensures [adopted] err == nil && old(db.dirty) ==> db.header.PageSize == hdr_ps && db.header.SchemaCookie == hdr_cookie
 //@   ensures [schema] err == nil && old(db.dirty) && old(db.header) != nil && old(db.header.SchemaCookie) != db.header.SchemaCookie ==> db.objectCache == nil
 
 //@ func (*db.Database).openPage
 //@   props C08 C15 C01 C02 C12
-//@   modifies * -M:S_db_KeyCol hdr_valid
+//@   modifies * -M:S_db_KeyCol hdr_valid hdr_ps hdr_cookie
 //@   requires db != nil
 //@   ensures [clean] err == nil ==> !db.dirty && db.header != nil && db.header.ChangeCounter == cc_now
 //@   ensures [current] err == nil ==> r0 != nil && repr(r0, page, db.header.ChangeCounter)
@@ -174,7 +175,7 @@ package db
 //@ func (*db.Database).master
 //@   props C08 C12 C05 C01
 //@   uses table_tree
-//@   modifies * -M:S_db_KeyCol hdr_valid
+//@   modifies * -M:S_db_KeyCol hdr_valid hdr_ps hdr_cookie
 //@   requires db != nil
 //@   ghost-entry cur_tree = tree_of(1)
 //@   ghost-entry pos = p_lo(1)
@@ -195,29 +196,29 @@ package db
 
 //@ func (*db.Database).Table
 //@   props C08 C05 C01
-//@   modifies * -M:S_db_KeyCol hdr_valid
+//@   modifies * -M:S_db_KeyCol hdr_valid hdr_ps hdr_cookie
 //@   requires db != nil
 //@   ensures err == nil ==> r0 != nil && r0.db == db && hdr_valid
 
 //@ func (*db.Database).NonRowidTable
 //@   props C08 C05 C01
-//@   modifies * -M:S_db_KeyCol hdr_valid
+//@   modifies * -M:S_db_KeyCol hdr_valid hdr_ps hdr_cookie
 //@   requires db != nil
 //@   ensures err == nil ==> r0 != nil && r0.db == db && hdr_valid
 
 //@ func (*db.Database).Index
 //@   props C08 C05 C02
-//@   modifies * -M:S_db_KeyCol hdr_valid
+//@   modifies * -M:S_db_KeyCol hdr_valid hdr_ps hdr_cookie
 //@   requires db != nil
 //@   ensures err == nil ==> r0 != nil && r0.db == db && hdr_valid
 
 //@ func (*db.Database).objectNames
 //@   props C08 C05
-//@   modifies * -M:S_db_KeyCol hdr_valid
+//@   modifies * -M:S_db_KeyCol hdr_valid hdr_ps hdr_cookie
 //@   requires db != nil
 
 //@ func db.newDatabase
 //@   props C08 C15 C05
-//@   modifies * -M:S_db_KeyCol hdr_valid
+//@   modifies * -M:S_db_KeyCol hdr_valid hdr_ps hdr_cookie
 //@   requires l != nil
 //@   ensures [open] r1 == nil ==> r0 != nil && !r0.dirty && r0.header != nil && legal_ps(r0.header.PageSize) && r0.header.ChangeCounter == cc_now && hdr_valid
